@@ -70,6 +70,7 @@ type Ctx struct {
 	EdgesRemoved  int
 	seenKeys      map[string]int
 	minCounts     []minCount
+	cidx          *callIndex
 }
 
 type minCount struct {
